@@ -155,6 +155,33 @@ class Front:
                 return self.classes[c].setters[name]
         return None
 
+    def instance_attr_values(self, cname, name):
+        """value expressions assigned to `self.<name>` anywhere in the methods of the class and its bases -> [(owner, method, expr|None)]"""
+        out = []
+        for c in self.mro(cname):
+            ci = self.classes.get(c)
+            if ci is None:
+                continue
+            for grp in (ci.methods, ci.setters, ci.properties):
+                for fi in grp.values():
+                    args = fi.node.args.args
+                    if not args:
+                        continue
+                    me = args[0].arg
+                    for st in ast.walk(fi.node):
+                        tgts, val = [], None
+                        if isinstance(st, ast.Assign):
+                            tgts, val = st.targets, st.value
+                        elif isinstance(st, ast.AnnAssign):
+                            tgts, val = [st.target], st.value
+                        elif isinstance(st, ast.AugAssign):
+                            tgts, val = [st.target], None
+                        for t in tgts:
+                            for tt in (t.elts if isinstance(t, (ast.Tuple, ast.List)) else [t]):
+                                if isinstance(tt, ast.Attribute) and isinstance(tt.value, ast.Name) and tt.value.id == me and tt.attr == name:
+                                    out.append((c, fi.node.name, val if not isinstance(t, (ast.Tuple, ast.List)) else None))
+        return out
+
     def find_class_attr(self, cname, name):
         for c in self.mro(cname):
             if name in self.classes[c].class_attrs:
